@@ -1,6 +1,7 @@
 use crate::runner::Ctx;
 
 pub mod c01;
+pub mod c02;
 pub mod c03;
 pub mod c04;
 pub mod c05;
@@ -22,6 +23,7 @@ pub mod c18_sessions;
 pub fn run(ctx: &Ctx) -> bool {
     match ctx.prop.as_str() {
         "C01" => c01::run(ctx),
+        "C02" => c02::run(ctx),
         "C03" => c03::run(ctx),
         "C04" => c04::run(ctx),
         "C05" => c05::run(ctx),
